@@ -184,6 +184,14 @@ def run(pid, tier, seed):
         r = rng.fork("ops" + lp.line()[:300])
         for _ in range(1 if kind.startswith("big") or quick else 3):
             ops, lp2, a, b = gen_ops(r, lp, r.rint(1, 5))
+            if lp.rows and r.chance(0.25):
+                # appended rows only (singleton / short rows too): the transformed problem is then built by API edits of the original
+                ops, cur, a, b = [], lp, F(1), F(0)
+                for _k in range(r.rint(1, 3)):
+                    o = r.choice([("dup", r.below(len(cur.rows))), ("red", r.below(len(cur.rows)), r.choice([F(0), F(1), F(5, 2)]))])
+                    cur, a, b = apply_op(cur, o, a, b)
+                    ops.append(o)
+                lp2 = cur
             entry = "exact primal" if kind == "boxed" else r.choice(["exact primal", "exact dual", "exact primal"])
             jobs.append((kind, lp, ops, lp2, a, b, entry))
 
@@ -202,10 +210,26 @@ def run(pid, tier, seed):
                           signature={"symptom": "generator-vs-model"})
 
     # ---- solve original and transformed
+    def api_lines(lp, ops):
+        """the transformed problem built by editing the loaded original through the API (appended rows only), or None"""
+        if not ops or any(o[0] not in ("dup", "red") for o in ops):
+            return None
+        cur, a, b = lp, F(1), F(0)
+        lines = ["new 0 " + lp.line()]
+        for o in ops:
+            nxt, a, b = apply_op(cur, o, a, b)
+            s, rhs, rg, ent = nxt.rows[-1]
+            if s == "R":
+                lines.append("addrrow 0 - R %s %s %d %s" % (q2s(rhs), q2s(rg), len(ent), " ".join("%d %s" % (j, q2s(v)) for j, v in ent)))
+            else:
+                lines.append("addrow 0 - %s %s %d %s" % (s, q2s(rhs), len(ent), " ".join("%d %s" % (j, q2s(v)) for j, v in ent)))
+            cur = nxt
+        return lines
     def work(job):
         kind, lp, ops, lp2, a, b, entry = job
         t1 = proto.run_harness(exe, ["new 0 " + lp.line(), "solve 0 %s none" % entry], timeout=1800)
-        t2 = proto.run_harness(exe, ["new 0 " + lp2.line(), "solve 0 %s none" % entry], timeout=1800)
+        al = api_lines(lp, ops)
+        t2 = proto.run_harness(exe, (al if al else ["new 0 " + lp2.line()]) + ["solve 0 %s none" % entry], timeout=1800)
         return t1, t2
     from concurrent.futures import ThreadPoolExecutor
     with ThreadPoolExecutor(build.NCPU) as ex:
